@@ -411,6 +411,20 @@ pub fn run(env: &Env, spec: &RunSpec, dir: &Path, keep: bool) -> std::io::Result
     }
     cmd.process_group(0);
     let t0 = Instant::now();
+    // delta starts with the default dispositions and an empty signal mask, whatever the harness itself
+    // inherited: a shell starts background jobs with SIGINT and SIGQUIT ignored, ignored signals stay
+    // ignored across exec, and the injected SIGINT would then be no fault at all
+    unsafe {
+        cmd.pre_exec(|| {
+            for sig in [libc::SIGINT, libc::SIGQUIT, libc::SIGPIPE, libc::SIGTERM, libc::SIGHUP] {
+                libc::signal(sig, libc::SIG_DFL);
+            }
+            let mut set: libc::sigset_t = std::mem::zeroed();
+            libc::sigemptyset(&mut set);
+            libc::sigprocmask(libc::SIG_SETMASK, &set, std::ptr::null_mut());
+            Ok(())
+        });
+    }
     let mut child = cmd.spawn()?;
     let pgid = child.id() as i32;
 
